@@ -91,12 +91,36 @@ def run(tier):
                 add(kind=kind, N=N, j=j, ks=ks)
         for s in range(3 if e <= 16 else 1):
             add(kind="inv", N=N, seed=rng.randrange(1 << 40))
+    # transformers requested for a length that is not a power of two: the transform is the DFT of the largest power of two below it
+    for e in ([1, 2, 3, 5, 8, 9, 10, 12] + ([14, 16] if thorough else [])):
+        N = 1 << e
+        for ctor in sorted({N + 1, N + N // 2, 2 * N - 1, N + 1 + rng.randrange(N - 1) if N > 1 else 3}):
+            if ctor >= 2 * N or ctor <= N:
+                continue
+            for j in sorted({0, 1, N // 2, N - 1, rng.randrange(N)}):
+                for kind in ("impulse", "tone"):
+                    add(kind=kind, N=N, j=j, ctor=ctor, ks=sorted(set([0, 1, N // 2, N - 1, j, (N - j) % N] + [rng.randrange(N) for _ in range(12)])))
+            add(kind="inv", N=N, ctor=ctor, seed=rng.randrange(1 << 40))
     for N in (2, 8, 1024, 4096):
         for ln in (N - 1, N + 1, 0, 2 * N, N // 2):
             add(kind="wronglen", N=N, len=ln)
     for N in (3, 1000, 1025):          # transformer for the largest power of two below N: a slice of length N is the wrong length
         add(kind="wronglen", N=N, len=N)
     rows, crashed = vlib.run_hz_jobs(hz, "fft", tj, nproc=vlib.NCPU, timeout=3000)
+    # the larger transforms once more in processes that see 3 and 5 processors (GOMAXPROCS resp. CPU affinity): the result
+    # of a transform must not depend on how many processors a (possibly parallelised) implementation finds
+    base = [j for j in tj if j["kind"] in ("impulse", "tone", "inv") and j["N"] >= 2048]
+    envruns = []
+    for label, env, ts in (("GOMAXPROCS=3", {"GOMAXPROCS": "3"}, None), ("5 cpus", None, "0-4"), ("GOMAXPROCS=7", {"GOMAXPROCS": "7"}, "0-11")):
+        sub = []
+        for j in (base if thorough else base[::3] + [x for x in base if x["kind"] == "inv"]):
+            jid += 1
+            sub.append(dict(j, id=jid, envlabel=label))
+        tj += sub
+        r2, c2 = vlib.run_hz_jobs(hz, "fft", sub, nproc=4, timeout=3000, env=env, taskset=ts)
+        rows.update(r2)
+        crashed += c2
+    run.extra["processor_count_variants"] = ["GOMAXPROCS=3", "affinity 5 cpus", "GOMAXPROCS=7 on 12 cpus"]
     if crashed:
         c = crashed[0]
         run.violation({"kind": "crash", "job": json.dumps(c["first_missing"])[:200]}, {"job": c["first_missing"], "stderr": c["stderr"][-1500:]})
@@ -115,7 +139,7 @@ def run(tier):
     for e in rej:
         run.violation({"kind": e["kind"], "N": e["N"], "j": e["j"], "len": e["len"]}, {"cmd": "fft", "job": byid[e["id"]], "event": {k: v for k, v in e.items() if k != "samples"}, "samples_head": e["samples"][:4]})
     for e in events:
-        run.nontriv("%s|%d|%d|%d" % (e["kind"], e["N"], e["j"], e["len"]))
+        run.nontriv("%s|%d|%d|%d|%s|%s" % (e["kind"], e["N"], e["j"], e["len"], byid[e["id"]].get("ctor", 0), byid[e["id"]].get("envlabel", "")))
     run.sample({"event": {k: v for k, v in events[-40].items() if k != "samples"}, "samples_head": events[-40]["samples"][:2]})
     run.rule = ("model: the FFT as written equals the DFT on every unit impulse for N = 2..64 (128) (complete by linearity) and Inverse inverts; "
                 "code: exact spectra of integer inputs for N <= 64 (128); impulse (every position for small N) and tone families with TLC-judged sampled bins and a full-vector float screen "
@@ -129,6 +153,8 @@ def run(tier):
 def replay(path):
     rp = json.load(open(path))["replay"]
     hz = vlib.go_build()
-    rows, crashed = vlib.run_hz_jobs(hz, "fft", [rp["job"]], nproc=1)
+    lab = (rp.get("job") or {}).get("envlabel", "")
+    env, ts = ({"GOMAXPROCS": "3"}, None) if lab == "GOMAXPROCS=3" else (None, "0-4") if lab == "5 cpus" else ({"GOMAXPROCS": "7"}, "0-11") if lab else (None, None)
+    rows, crashed = vlib.run_hz_jobs(hz, "fft", [rp["job"]], nproc=1, env=env, taskset=ts)
     print(json.dumps(list(rows.values()))[:3000])
     print("why:", rp.get("why"), rp.get("event"))
